@@ -340,7 +340,15 @@ class Ctx:
             cov.pop("evaluations"); cov.pop("distinct_nontrivial", None)
         cov.update(self.extra)
         cov["known_findings_seen"] = sorted(self.known_seen)
-        ev = dict(property_id=self.pid, tier=self.tier, seed=self.seed, level=self.level, coverage=cov,
+        level = self.level
+        if partial and level == "model_checking" and not (cov.get("states") and cov.get("transitions") and cov.get("samples")):
+            # the run ended early (the real code crashed): say so instead of claiming model-checking coverage
+            level = "other"
+            cov["explanation"] = "run ended early with a violation: the real code crashed / failed an honest scenario before the exploration completed; counts are what had been covered until then"
+            for k in ("states", "transitions", "samples"):
+                if not cov.get(k):
+                    cov.pop(k, None)
+        ev = dict(property_id=self.pid, tier=self.tier, seed=self.seed, level=level, coverage=cov,
                   assumptions=self.assumptions, wall_s=round(wall, 1), violations=len(self.violations))
         # evidence describes runs against /repo itself; a self-test against a scratch worktree (VERIF_REPO) must not overwrite it
         evdir = os.path.join(VERIF, "evidence") if (REPO == "/repo" and not self.pid.startswith("X")) else os.path.join(VERIF, "out", "evidence-selftest")
